@@ -138,7 +138,7 @@ func runPairTable(c *core.Ctx, base int64) {
 }
 
 func runSampled(c *core.Ctx) {
-	n := int64(c.N(6000, 240000))
+	n := int64(c.N(36000, 240000))
 	for i := int64(0); i < n; i++ {
 		if !c.Want(i) {
 			continue
